@@ -80,7 +80,7 @@ def run(F, R):
     # Z18: the returned mount tag is one consistent snapshot of the configuration space: every configuration read it is built from
     # happens inside the generation-bracketed retry closure (C13.G3)
     from .C13 import g3_wrapped
-    g3_wrapped(F, RuleProxy(R, {'G3': 'Z18'}, only=lambda inst: 'virtio_9p' in inst))
+    guard(R, 'Z18', 'consistent-read', lambda: g3_wrapped(F, RuleProxy(R, {'G3': 'Z18'}, only=lambda inst: 'virtio_9p' in inst)))
     # Z10: returned values equal what the device reported: integer -> enum decoding tables agree with the enums' codes
     decode_tables_rule(F, R, 'Z10', ['device::'])
     z11_rtc(F, R, M, roles)
